@@ -32,8 +32,9 @@ def gen(rng, tier):
         yield dict(kind="g1", horizon=h, forms=["arc", "path", "seq"] if h <= 20 else ["arc", "path"])
     for _ in range(3 if tier == "quick" else 20):
         yield dict(kind="mirp", spec=small_mirp(rng), strict=rng.random() < 0.5)
-    for _ in range(2 if tier == "quick" else 12):
-        yield dict(kind="random", seed=rng.randrange(10 ** 4), ns=1, nd=rng.randint(1, 2), horizon=rng.choice([25, 30]), forms=["arc", "path"])
+    # explicit seeds incl. the boundary value 0 (a falsy seed must still be honoured)
+    for sd in [0, rng.randrange(1, 10 ** 4)] + ([rng.randrange(10 ** 4) for _ in range(10)] if tier != "quick" else []):
+        yield dict(kind="random", seed=sd, ns=1, nd=rng.randint(1, 2), horizon=rng.choice([25, 30]), forms=["arc", "path"])
 
 
 def run_worker(job, hashseed):
